@@ -242,10 +242,36 @@ func init() {
 		// back
 		if c.Job.Index%4 == 1 && !w.Dead {
 			if p1, ok := w.App.AmmKeeper.GetPool(w.ReadCtx(), 1); ok {
+				// three providers join right before the switch: their shares are under the oracle pool's
+				// one-hour lock when the pool changes mode, and they try to leave right after it
+				lockedIn := []*chain.Actor{u[10], u[11], u[12]}
+				jt := []*chain.TxRecord{}
+				for i, a := range lockedIn {
+					jt = append(jt, w.Tx(a, &ammtypes.MsgJoinPool{Sender: a.S(), PoolId: 1, MaxAmountsIn: sdk.NewCoins(chain.Coin("uusdc", S/int64(50+10*i))), ShareAmountOut: math.NewInt(1)}))
+				}
+				w.Step(5, jt...)
 				pp := p1.PoolParams
 				pp.UseOracle = false
 				if w.GovExec("pool 1 -> constant product", &ammtypes.MsgUpdatePoolParams{Authority: w.Gov, PoolId: 1, PoolParams: pp}) {
 					c.Ev("leveraged_pool_switched_to_constant_product")
+				}
+				et := []*chain.TxRecord{}
+				for i, a := range lockedIn {
+					cm := w.App.CommitmentKeeper.GetCommitments(w.ReadCtx(), a.Addr)
+					have := cm.GetCommittedAmountForDenom(ammtypes.GetPoolShareDenom(1))
+					if have.IsPositive() {
+						et = append(et, w.Tx(a, &ammtypes.MsgExitPool{Sender: a.S(), PoolId: 1, ShareAmountIn: have.QuoRaw(int64(2 + i)), TokenOutDenom: []string{"", "uusdc", "uatom"}[i], MinAmountsOut: sdk.NewCoins()}))
+					}
+				}
+				if len(et) > 0 && !w.Dead {
+					b := w.Step(5, et...)
+					for _, t := range b.Txs[1:] {
+						if t.OK() {
+							c.Ev("exit_under_lock_after_mode_switch_accepted")
+						} else {
+							c.Ev("exit_under_lock_after_mode_switch_refused")
+						}
+					}
 				}
 				// swap-only blocks first (several swaps on the pool in one batch, nothing else touching
 				// it in between), then the full mix
